@@ -31,6 +31,9 @@ var constTable = []constSpec{
 	{"cache_dump_max_block_len", "plugin/executable/cache/cache.go", "dumpMaximumBlockLength", "", "N"},
 	{"cache_max_empty_answer_ttl", "plugin/executable/cache/utils.go", "maxEmtpyAnswerTtl", "saveRespToCache", "N"},
 	{"cache_min_size", "pkg/cache/cache.go", "minSize", "", "N"},
+	{"cache_key_ad_bit", "plugin/executable/cache/utils.go", "adBit", "getMsgKey", "N"},
+	{"cache_key_cd_bit", "plugin/executable/cache/utils.go", "cdBit", "getMsgKey", "N"},
+	{"cache_key_do_bit", "plugin/executable/cache/utils.go", "doBit", "getMsgKey", "N"},
 	{"map_shard_size", "pkg/concurrent_map/map.go", "MapShardSize", "", "N"},
 	{"edns0_size", "pkg/query_context/context.go", "edns0Size", "", "N"},
 	{"fallback_parallel_timeout", "plugin/executable/sequence/fallback/fallback.go", "defaultParallelTimeout", "", "Z"},
